@@ -80,7 +80,8 @@ pub fn lit_sql(v: &Value) -> String {
             if d == 1 {
                 n.to_string()
             } else {
-                format!("{}", n as f64 / d as f64)
+                // {:?} keeps the fraction point of an integral quotient (4/2 is the literal 2.0, not 2)
+                format!("{:?}", n as f64 / d as f64)
             }
         }
         "s" => format!("'{}'", v["s"].as_str().unwrap_or("").replace('\'', "''")),
